@@ -91,10 +91,13 @@ CHECKS = {
             'result is equal (patterns in order, extra letters, whitespace wrapping), proved stage by stage (cleaning, coarse '
             'classes, grouping, sorting, fine analysis, refinement, frequencies); a frequency dictionary and the list it '
             'stands for give the same result; without pruning options frequencies are irrelevant and repeating an example is '
-            'a no-op; the model is a pure function of (table, options, examples) so a call cannot depend on history. The '
-            'model is tied to rexpy.extract on the given order, a permutation and the dictionary form of every non-sampling '
-            'case. PARTIAL: behaviour under sampling, seeds, the global PRNG state, hash order and the regex memo are runtime: '
-            'the oracle compares 5 permutations, the dictionary form, a repeat, a repeated example and a call after an '
+            'a no-op; the pandas-column form (pdextract: per column the distinct non-null values, columns concatenated) gives '
+            'the result of the plain list of all values (series_eq_list); the model is a pure function of (table, options, '
+            'examples) so a call cannot depend on history. The model is tied to rexpy.extract on the given order, a '
+            'permutation and the dictionary form of every non-sampling case, and to pdextract on two object columns (the '
+            'strings it hands to extract are spied on). PARTIAL: behaviour under sampling, seeds, the global PRNG state, hash order and the regex memo are runtime: '
+            'the oracle compares 5 permutations, the dictionary form, object / str / categorical (also with unused categories) '
+            'columns, a repeat, a repeated example and a call after an '
             'unrelated extraction on the real code, repeats seeded calls from other PRNG states, compares the PRNG state '
             'before / after, and re-evaluates every deterministic case alone in a freshly forked interpreter under another '
             'PYTHONHASHSEED.',
